@@ -165,6 +165,125 @@ class SamplerCase(Case):
         return {f"out{i}": o for i, o in enumerate(oc.value["outs"])}
 
 
+class PipelineCase(Case):
+    """Several real SciPySampler objects combined by _perturb_variables over repeated gradient evaluations:
+    every perturbed entry is x + magnitude * (the number drawn for it by the sampler that owns the variable)."""
+
+    family = "sampler/pipeline"
+
+    def __init__(self, cid, *, methods, sampler_map, N, R=2, P=2, evals=2, mask=None):
+        self.id, self.methods, self.sampler_map, self.N, self.R, self.P, self.evals, self.mask = cid, methods, sampler_map, N, R, P, evals, mask
+        self.cfg0 = ens.ensemble_config(N=N, R=R, P=P, mask=mask, samplers=[{"method": m} for m in methods], sampler_map=sampler_map,
+                                        lower=-100.0, upper=100.0, magnitudes=0.25)
+        self.owner = {}
+        for j in range(N):
+            if mask is None or mask[j]:
+                self.owner[j] = sampler_map[j]
+        self.cols = {i: [j for j in range(N) if self.owner.get(j) == i] for i in range(len(methods))}
+
+    def describe(self):
+        return f"pipeline samplers={self.methods} map={self.sampler_map} mask={self.mask} R={self.R} P={self.P} gradient_evaluations={self.evals}"
+
+    def inputs(self, env):
+        d = {}
+        for i, m in enumerate(self.methods):
+            dim = len(self.cols[i])
+            d[i] = env.reals(f"draw{i}", (self.evals, self.R, self.P, max(dim, 1)), lo=0, hi=1)
+        return {"d": d}
+
+    def run(self, env, inp):
+        import ropt.plugins.sampler.scipy as S
+        from ropt.ensemble_evaluator import EnsembleEvaluator
+        from ropt.evaluator import EvaluatorResult
+
+        case = self
+        counters = {}
+
+        def unit(sampler_id, size):
+            call = counters.get(sampler_id, 0)
+            counters[sampler_id] = call + 1
+            return inp["d"][sampler_id][call]
+
+        class StubDist:
+            def __init__(self, name):
+                self.name = name
+
+            def rvs(self, size=None, random_state=None, **opts):
+                u = unit(random_state.owner, size)
+                out = np.empty(tuple(size), dtype=object)
+                for idx in np.ndindex(*size):
+                    out[idx] = u[idx] * 2 - 1
+                return env.arr(out)
+
+        class Rng:
+            pass
+
+        class StubEngine:
+            def __init__(self, d, seed=None, **opts):
+                self.d, self.g = d, seed
+
+            def random(self, n):
+                u = unit(self.g.owner, None).reshape(-1, max(self.d, 1))
+                return env.arr(u[:n, : self.d])
+
+        def stub_scale(sample, l_bounds, u_bounds):
+            lo, hi = np.asarray(l_bounds, dtype=float), np.asarray(u_bounds, dtype=float)
+            return sample * (hi - lo) + lo
+
+        # every sampler gets the shared generator; the stub must know which sampler draws: tag through create order
+        old = (dict(S._STATS_SAMPLERS), dict(S._QMC_ENGINES), S.scale)
+        S._STATS_SAMPLERS.update({k: StubDist(k) for k in STATS})
+        S._QMC_ENGINES.update({k: StubEngine for k in QMC})
+        S.scale = stub_scale
+        orig_init = S.SciPySampler.__init__
+
+        def tagging_init(self_, cfg, idx, mask, rng):
+            r = Rng()
+            r.owner = idx
+            orig_init(self_, cfg, idx, mask, r)
+
+        S.SciPySampler.__init__ = tagging_init
+        try:
+            calls = []
+
+            def evaluator(variables, context):
+                calls.append(variables)
+                return EvaluatorResult(objectives=np.full((variables.shape[0], 1), np.nan))
+
+            from .common import plugin_manager
+            ee = EnsembleEvaluator(clone_config(self.cfg0), None, evaluator, plugin_manager())
+            outs = []
+            for e in range(self.evals):
+                x = np.array([0.5 * (j + 1) + e for j in range(self.N)])
+                _, gr = ee.calculate(env.const(x), compute_functions=True, compute_gradients=True)
+                outs.append((x, gr.evaluations.perturbed_variables))
+        finally:
+            S._STATS_SAMPLERS.clear(), S._STATS_SAMPLERS.update(old[0])
+            S._QMC_ENGINES.clear(), S._QMC_ENGINES.update(old[1])
+            S.scale = old[2]
+            S.SciPySampler.__init__ = orig_init
+        return {"outs": outs}
+
+    def props(self, env, inp, oc):
+        if not oc.ok:
+            return [("no_internal_exception:" + type(oc.exc).__name__, SB(False))]
+        props = []
+        mag = SR(Fraction(1, 4))
+        for e, (x, pv) in enumerate(oc.value["outs"]):
+            a = np.asarray(vals(pv), dtype=object)
+            for r in range(self.R):
+                for p in range(self.P):
+                    for j in range(self.N):
+                        xj = SR(Fraction(float(x[j])))
+                        if j not in self.owner:
+                            props.append((f"eval{e}.r{r}p{p}v{j}.unhandled_variable_not_perturbed", exact(a[r, p, j], xj)))
+                            continue
+                        i = self.owner[j]
+                        u = inp["d"][i][e, r, p, self.cols[i].index(j)]
+                        props.append((f"eval{e}.r{r}p{p}v{j}.is_x_plus_magnitude_times_own_draw", close(a[r, p, j], xj + mag * (u * 2 - 1))))
+        return props
+
+
 class RealLhsCase(Case):
     """Concrete companion (no solver variable): with SciPy's real LatinHypercube engine, the points
     handed out keep one sample per stratum and variable - what the point-integrity obligation implies."""
@@ -216,6 +335,9 @@ def build_cases(tier):
     add(method="uniform", N=2, R=2, P=2, options={"loc": -0.5, "scale": 1.0})
     add(method="truncnorm", N=1, R=2, P=2, options={"a": -2.0, "b": 2.0})
     add(method="lhs", N=3, R=3, P=2, mask=(False, True, True), sampler_map=(0, 1, 1), which=1, nsamplers=2)
+    add(PipelineCase, methods=("uniform", "uniform"), sampler_map=(0, 1, 0), N=3)
+    add(PipelineCase, methods=("truncnorm", "sobol"), sampler_map=(1, 0, 1), N=3, mask=(True, True, False))
+    add(PipelineCase, methods=("lhs", "uniform", "halton"), sampler_map=(2, 0, 1, 0), N=4, evals=3)
     import os
     seed = int(os.environ.get("VERIF_SEED", "0") or 0)
     add(RealLhsCase, 2, 2, 2, seed)
